@@ -482,6 +482,13 @@ func runHostile(t fatalTB, connack []byte, stream []byte, hs hostileSetup) (labe
 		if !redialed {
 			fail("after the protocol violation the next ReadSlices did not dial again")
 		}
+		// the reset releases whoever waited on that connection
+		if subCall != nil {
+			w.MustPoll("the Subscribe which was waiting on the reset connection returning", func() bool { return w.IsDone(subCall) })
+			if subCall.Err == nil && len(st.subs) != 0 {
+				fail("the waiting Subscribe returned nil although the connection was reset before an acceptable SUBACK")
+			}
+		}
 	case vIncomplete:
 		// the stream ends inside a packet: PauseTimeout must bound the wait
 		if firstErr == nil {
